@@ -20,7 +20,7 @@ Ev == T.ev[l]
 
 TInit == Init /\ tid \in 1..Len(Traces) /\ l = 1 /\ verdict = "ok"
 
-Ignored(k) == k \in {"withLock", "compileCall", "resetPat", "other"}
+Ignored(k) == k \in {"withLock", "compileCall", "resetPat", "other", "app"}
 
 Act(t, k) ==
     CASE k = "readFind"   -> IF pc[t] = "call" THEN Call(t) ELSE ReadFind(t)
